@@ -662,6 +662,20 @@ def directed():
                 yield h
 
 
+    # a table that holds ONE common value of a declared type (the all-zero / all-one table of a float table) is LISTED first (items / to_dict: reads),
+    # then looked up, then takes a fractional value for some keys: the listing must not have decided the table's value type
+    for kd in ("int64", None, "int32"):
+        keys = [5, 17, 3, 40, 12]
+        for init in ([0.5 * i + 0.25 for i in range(5)], 1.5):
+            for like in ("zeros_like", "ones_like"):
+                for lst in (["items"], ["to_dict"], ["to_dict", "items"], ["format", "items"]):
+                    for wr in ({"op": "set1", "table": "d1", "keys": [17], "vals": [2.5]}, {"op": "setv", "table": "d1", "keys": [5, 12], "vals": [0.25]},
+                               {"op": "setvv", "table": "d1", "keys": [3, 40], "vals": [2.75, -0.5]}):
+                        yield {"keys": keys, "kdtype": kd, "mod": None, "init": init, "vdtype": "float64", "nonkeys": [99, 100], "style": "small",
+                               "ops": [{"op": like, "table": "t"}] + [{"op": o_, "table": "d1"} for o_ in lst] + [{"op": "getv", "table": "d1", "keys": keys[:3]}, wr,
+                                       {"op": "getv", "table": "d1", "keys": keys}, {"op": "to_dict", "table": "d1"}, {"op": "getv", "table": "t", "keys": keys}]}
+
+
 def random_case(rng, tier):
     return gen_history(rng, tier)
 
